@@ -62,6 +62,16 @@ def step (_ : Unit) (toks : List String) : Unit × String :=
         match logsOf caller (parseEvents (kv rest "ev")) 0 with
         | none => ((), s!"native={showNative n} res=revert logs=- twin=eq")
         | some ls => ((), s!"native={showNative n} res=ok logs={if ls.isEmpty then "-" else ",".intercalate (ls.map showLog)} twin=eq")
+  | "stk2" :: rest =>
+    -- two calls by one contract in one transaction: the second call sees the first call's events as "old"
+    let caller := kvNat rest "caller"
+    let ev1 := parseEvents (kv rest "ev1")
+    let ev2 := parseEvents (kv rest "ev2")
+    match logsOf caller ev1 0, logsOf caller (ev1 ++ ev2) ev1.length with
+    | some l1, some l2 =>
+      let ls := l1 ++ l2
+      ((), s!"res=ok logs={if ls.isEmpty then "-" else ",".intercalate (ls.map showLog)} twin=eq")
+    | _, _ => ((), "res=revert logs=- twin=eq")
   | _ => ((), "bad-op")
 
 end Driver.Staking
